@@ -2,7 +2,14 @@ package rux
 
 // C09 — a panicking handler is contained and leaves the router healthy.
 
+import "net/http"
+
 type verifPanicVal struct{ id int }
+
+type verifWrapErr struct{ err error }
+
+func (w verifWrapErr) Error() string { return "wrapped: " + w.err.Error() }
+func (w verifWrapErr) Unwrap() error { return w.err }
 
 func verifHarness_C09_panic() {
 	n := 1 + verifChoice("n", 3)  // chain length incl. main
@@ -26,7 +33,19 @@ func verifHarness_C09_panic() {
 	panicked := false
 	lateEnter := false
 	second := false
-	pv := &verifPanicVal{7}
+	// the value panicked with: a pointer, a string, net/http's abort sentinel, an error wrapping it
+	// (the last three only in the plain scenario, to keep the product small)
+	var pv any = &verifPanicVal{7}
+	if onErr == 0 && !addErr && !wroteBefore {
+		switch verifChoice("value", 4) {
+		case 1:
+			pv = "boom"
+		case 2:
+			pv = http.ErrAbortHandler
+		case 3:
+			pv = verifWrapErr{http.ErrAbortHandler}
+		}
+	}
 	mk := func(i int) HandlerFunc {
 		return func(c *Context) {
 			if panicked && !second {
@@ -115,11 +134,11 @@ func verifHarness_C09_panic() {
 	verifAssert(!lateEnter, "no handler starts after the panic")
 	verifAssert(!onErrRanAfterPanic, "the OnError handler does not run after a panic either")
 	if hook == 0 {
-		verifAssert(escaped == any(pv), "without a hook the panic propagates to the caller unchanged")
+		verifAssert(escaped == pv, "without a hook the panic propagates to the caller unchanged")
 	} else {
 		verifAssert(escaped == nil, "with a hook the panic does not escape ServeHTTP")
 		verifAssert(hookRuns == 1, "the hook runs exactly once")
-		verifAssert(hookSaw == any(pv), "the hook finds the recovered value under the documented key")
+		verifAssert(hookSaw == pv, "the hook finds the recovered value under the documented key")
 		want := 200
 		if hook >= 2 && !wroteBefore {
 			want = code
